@@ -261,7 +261,9 @@ Verdict prop(Tape& t, Run& run) {
 }
 
 void deterministic(Run& run, const std::function<void(const std::vector<uint8_t>&)>& feed) {
-	enumerateFileCases(run, feed, run.args.tier == "thorough" ? 6 : 2);
+	const bool th = run.args.tier == "thorough";
+	enumerateFileCases(run, feed, th ? 6 : 2);
+	enumerateSweep(run, feed, th ? 24 : 8, th ? 32 : 24, th ? 6 : 2);
 }
 
 } // namespace
